@@ -1,0 +1,47 @@
+//! Verification hooks, only compiled with the `verif` feature: read access to
+//! the private flags of [`SimEvent`] and a per-thread log of every action the
+//! simulator received from a framework instance. They do not influence the
+//! simulation.
+
+use std::cell::RefCell;
+use std::time::Instant;
+
+use maybenot::TriggerAction;
+
+use crate::SimEvent;
+
+/// An action returned by the client's or server's framework at a point in
+/// simulated time.
+#[derive(Debug, Clone, PartialEq)]
+pub struct LoggedAction {
+    pub client: bool,
+    pub time: Instant,
+    pub action: TriggerAction,
+}
+
+thread_local! {
+    static ACTION_LOG: RefCell<Vec<LoggedAction>> = const { RefCell::new(Vec::new()) };
+}
+
+pub(crate) fn log_action(client: bool, time: Instant, action: &TriggerAction) {
+    ACTION_LOG.with(|l| {
+        l.borrow_mut().push(LoggedAction {
+            client,
+            time,
+            action: action.clone(),
+        })
+    });
+}
+
+/// Take (and clear) the log of actions received by the simulator on this
+/// thread since the last call.
+pub fn take_action_log() -> Vec<LoggedAction> {
+    ACTION_LOG.with(|l| std::mem::take(&mut *l.borrow_mut()))
+}
+
+impl SimEvent {
+    /// The private (bypass, replace) flags of the event.
+    pub fn verif_flags(&self) -> (bool, bool) {
+        (self.bypass, self.replace)
+    }
+}
